@@ -44,10 +44,15 @@ theorem guard_balanced_init (c : Circ) (s : St) (h : Idle s) : Idle (initAll c s
 /-! ### no_nested_handling -/
 
 /-- In every execution the handler of a block is entered with nesting depth 1, i.e. never while a
-    handler of the same block is on the stack (`TItem.ok` of an `enter` item says `depth = 1`, where
-    `depth` counts the handler frames of the block on the stack at that moment).  The frames of the
-    block that may be on the stack are therefore all in phase `init` – the documented window
-    "initialisation of a block by an event" (`_enable_event` around `init_sblock`). -/
+    handler of the same block is running (`TItem.ok` of an `enter` item says `depth = 1`, where
+    `depth` counts the frames of the block on the stack that are in phase `handler`).  The other
+    frames of the block that may be below it are in phase `init` – the documented window
+    "initialisation of a block by an event" (`_enable_event` around `init_sblock`) – or in phase
+    `window` – an FSM transition suspended in `with self._enable_event:` around its entry action or
+    the start of its timer, where the nested handler only parks ONE chained request
+    (`chained_request_is_parked`, `second_chained_request_is_refused`).  This covers the handlers of
+    FSMs, their initial transition (`fsm_initial_transition_is_an_event`) and timer-driven
+    transitions (`timer_expiry_is_an_event`). -/
 theorem no_nested_handling (c : Circ) (fuel : Nat) (s : St) (d : Nat) (et : EType) (data : Data)
     (hi : Inv s) (ht : TraceOk s) : TraceOk (deliver c fuel s d et data).1 :=
   (deliver_good c fuel s d et data ⟨hi, ht⟩).2
@@ -103,14 +108,6 @@ theorem error_is_kept (c : Circ) (fuel : Nat) (s : St) (d : Nat) (et : EType) (d
     (h : s.error.isSome) : (deliver c fuel s d et data).1.error.isSome :=
   (deliver_frm c fuel s d et data).error h
 
-/-- a top-level delivery that ends with EdzedCircuitError has stopped the simulation -/
-theorem circuit_error_means_aborted (c : Circ) (s : St) (d : Nat) (et : EType) (data : Data)
-    (h : Idle s) (hr : (rawSend c s d et data).2 = .exc .circuitError) :
-    (rawSend c s d et data).1.error.isSome := by
-  have := deliver_Q c c.fuel s d et data h.inv hr
-  rw [h.2] at this
-  simpa [rawSend] using this
-
 /-- every exception other than EdzedUnknownEvent that leaves a handler calls `abort` and is
     re-raised (error classification of `SBlock.event`) -/
 theorem exception_leaving_handler_aborts (s : St) (e : Exc) (h1 : e ≠ .unknownEvent)
@@ -155,12 +152,12 @@ theorem eventcond_none_is_harmless (c : Circ) (fuel : Nat) (s : St) (d : Nat) (b
 theorem unknown_event_is_harmless (c : Circ) (fuel : Nat) (s : St) (d : Nat) (b : Blk) (et : EType)
     (data : Data) (hb : c.blocks[d]? = some b) (ht : et.check = Option.none)
     (ha : s.active d = false) (hi : s.init d ≠ .pending)
-    (hn : et.resolve (dataTruthy data) ≠ .none)
+    (hn : et.resolve (dataTruthy data) ≠ .none) (hk : b.kind ≠ .fsm)
     (hl : lookupHandler b.kind (et.resolve (dataTruthy data)) = Option.none) :
     deliver c (fuel + 1) s d et data = (s, .exc .unknownEvent) := by
   unfold deliver
   simp only [hb, ht, ha, Bool.false_eq_true, if_false, eventBody, hn, earlyInit, hi, andThen,
-    callHandler, hl]
+    callHandler, hl, hk]
   rw [state_restored s d ha]
 
 /-- an event with wrong parameters (the call of the handler does not bind): TypeError for the
@@ -169,13 +166,13 @@ theorem parameter_error_is_harmless (c : Circ) (fuel : Nat) (s : St) (d : Nat) (
     (data : Data) (h : String × List String × List String × Bool)
     (hb : c.blocks[d]? = some b) (ht : et.check = Option.none)
     (ha : s.active d = false) (hi : s.init d ≠ .pending)
-    (hn : et.resolve (dataTruthy data) ≠ .none)
+    (hn : et.resolve (dataTruthy data) ≠ .none) (hk : b.kind ≠ .fsm)
     (hl : lookupHandler b.kind (et.resolve (dataTruthy data)) = some h)
     (hp : paramsOk h data = false) :
     deliver c (fuel + 1) s d et data = (s, .exc .typeError) := by
   unfold deliver
   simp only [hb, ht, ha, Bool.false_eq_true, if_false, eventBody, hn, earlyInit, hi, andThen,
-    callHandler, hl, hp, Bool.not_false, if_true]
+    callHandler, hl, hp, Bool.not_false, if_true, hk]
   rw [state_restored s d ha]
 
 /-- a malformed event type is rejected before the guard is touched – even by a busy block -/
@@ -189,7 +186,7 @@ theorem malformed_type_is_harmless (c : Circ) (fuel : Nat) (s : St) (d : Nat) (b
     in particular the outcomes above neither lock a block nor stop the simulation -/
 theorem harmless_outcomes_do_not_abort (c : Circ) (fuel : Nat) (s : St) (d : Nat) (b : Blk)
     (et : EType) (data : Data) (hb : c.blocks[d]? = some b) (ha : s.active d = false)
-    (hi : s.init d ≠ .pending)
+    (hi : s.init d ≠ .pending) (hk : b.kind ≠ .fsm)
     (hcase : et.check.isSome ∨ (et.check = Option.none ∧ (et.resolve (dataTruthy data) = .none ∨
       (et.resolve (dataTruthy data) ≠ .none ∧
         (lookupHandler b.kind (et.resolve (dataTruthy data)) = Option.none ∨
@@ -199,23 +196,77 @@ theorem harmless_outcomes_do_not_abort (c : Circ) (fuel : Nat) (s : St) (d : Nat
   · obtain ⟨x, hx⟩ := Option.isSome_iff_exists.1 h
     rw [malformed_type_is_harmless c fuel s d b et data x hb hx]
   · rw [eventcond_none_is_harmless c fuel s d b et data hb ht ha h]
-  · rw [unknown_event_is_harmless c fuel s d b et data hb ht ha hi hn h]
-  · rw [parameter_error_is_harmless c fuel s d b et data h hb ht ha hi hn hl hp]
+  · rw [unknown_event_is_harmless c fuel s d b et data hb ht ha hi hn hk h]
+  · rw [parameter_error_is_harmless c fuel s d b et data h hb ht ha hi hn hk hl hp]
+
+/-! ### FSM blocks: the documented window and the timer -/
+
+/-- While a transition of an FSM is in progress, a further transition request that reaches
+    `FSM._event` (only possible through the window `with self._enable_event` around the entry action
+    or the start of a zero-delay timer) is parked – exactly one – and acknowledged with True -/
+theorem chained_request_is_parked (dlv : Dlv) (b : Blk) (d : Nat) (stk0 : List Frame) (s : St)
+    (et : EType) (ns : Nat) (ht : fsmTarget b (s.fstate d) et = .to ns) (ha : s.fsmActive d = true)
+    (hn : s.nextEv d = Option.none) :
+    fsmEvent dlv b d stk0 s et = ({ s with nextEv := upd s.nextEv d (some ns) }, .ret (.bool true)) := by
+  unfold fsmEvent
+  simp [ht, ha, hn]
+
+/-- … a second request in the same transition raises EdzedCircuitError ("Forbidden event
+    multiplication") inside the handler, which stops the simulation (`exception_leaving_handler_aborts`) -/
+theorem second_chained_request_is_refused (dlv : Dlv) (b : Blk) (d : Nat) (stk0 : List Frame) (s : St)
+    (et : EType) (ns ns' : Nat) (ht : fsmTarget b (s.fstate d) et = .to ns) (ha : s.fsmActive d = true)
+    (hn : s.nextEv d = some ns') :
+    fsmEvent dlv b d stk0 s et = (s, .exc .circuitError) := by
+  unfold fsmEvent
+  simp [ht, ha, hn]
+
+/-- the window is closed again on every outcome of what runs inside it: flag and frame of the FSM
+    are as before (the handler goes on with the guard set) -/
+theorem window_is_closed (c : Circ) (fuel : Nat) (b : Blk) (d : Nat) (stk0 : List Frame) (s : St)
+    (wb : WinBody) (hs : s.stack = ⟨d, .handler⟩ :: stk0) :
+    (fsmWindow (deliver c fuel) b d stk0 s wb).1.active = s.active ∧
+    (fsmWindow (deliver c fuel) b d stk0 s wb).1.stack = s.stack :=
+  ⟨(fsmWindow_frm (deliver_frm c fuel) b d stk0 s wb hs).active,
+   (fsmWindow_frm (deliver_frm c fuel) b d stk0 s wb hs).stack⟩
+
+/-- the expiry of a timer is an event like any other: it enters through `deliver` (guard, frames,
+    refusal, abort), so all theorems above apply to timer-driven transitions; no block is left locked -/
+theorem timer_expiry_is_an_event (c : Circ) (s : St) (d : Nat) (p : St × Res) (h : Idle s)
+    (ht : tick c s d = some p) : Idle p.1 := by
+  unfold tick at ht
+  split at ht
+  · cases ht
+  · rename_i ev _
+    simp only [Option.some.injEq] at ht
+    subst ht
+    have f := deliver_frm c c.fuel { s with timer := upd s.timer d Option.none } d ev []
+    have hi : Idle { s with timer := upd s.timer d Option.none } := h
+    have : (andThen (deliver c c.fuel { s with timer := upd s.timer d Option.none } d ev [])
+        (fun s1 => (s1, Res.ret Val.none))).1 = (deliver c c.fuel { s with timer := upd s.timer d Option.none } d ev []).1 := by
+      unfold andThen; split <;> rfl
+    rw [this]
+    exact hi.of_frm f
+
+/-- the initial transition of an FSM is an event as well: `init_from_value` delivers `Goto(initdef)` -/
+theorem fsm_initial_transition_is_an_event (dlv : Dlv) (b : Blk) (d : Nat) (s : St) (hk : b.kind = .fsm)
+    (hu : (s.out d).isUndef = true) : initFromValue dlv b d s = dlv s d (.goto 0) [] := by
+  unfold initFromValue
+  simp [hk, hu]
 
 /-! ### fuel_suffices -/
 
 /-- The nesting depth of `event()` calls is bounded by the circuit: with `phi s` = number of blocks
-    that are not inside `event()` + number of blocks whose early initialisation is still pending,
-    `phi s + 1` units of fuel are never used up (every nested call lowers `phi`). -/
+    that are not inside `event()` + number of blocks whose early initialisation is still pending +
+    number of FSMs that are not inside a transition, `phi s + 1` units of fuel are never used up (every nested call lowers `phi`). -/
 theorem fuel_suffices_general (c : Circ) (fuel : Nat) (s : St) (d : Nat) (et : EType) (data : Data)
     (h : phi c.n s < fuel) : (deliver c fuel s d et data).2 ≠ .exc .outOfFuel :=
   deliver_G c fuel s d et data h
 
-/-- `phi` is at most twice the number of blocks (a handler frame and an early-initialisation frame
-    per block) … -/
-theorem depth_le_blocks (c : Circ) (s : St) : phi c.n s ≤ 2 * c.n := phi_le c.n s
+/-- `phi` is at most three times the number of blocks (per block: a handler frame, an
+    early-initialisation frame, and for an FSM one request parked in its chained-transition window) … -/
+theorem depth_le_blocks (c : Circ) (s : St) : phi c.n s ≤ 3 * c.n := phi_le c.n s
 
-/-- … hence the fuel the model runs with (`2 * blocks + 1`) suffices in every state: the artefact
+/-- … hence the fuel the model runs with (`3 * blocks + 1`) suffices in every state: the artefact
     `outOfFuel` never occurs, `deliver` is the real recursion -/
 theorem fuel_suffices (c : Circ) (s : St) (d : Nat) (et : EType) (data : Data) :
     (deliver c c.fuel s d et data).2 ≠ .exc .outOfFuel :=
@@ -276,6 +327,33 @@ example : (rawSend exSwallow exReady 0 (.name "a") []).2 = .ret .none
     ∧ (rawSend exSwallow exReady 0 (.name "a") []).1.error = some .circuitError
     ∧ (rawSend exSwallow exReady 0 (.name "a") []).1.active 0 = false
     ∧ (rawSend exSwallow exReady 0 (.name "a") []).1.active 1 = false := by decide +kernel
+
+/-- an FSM s0 -e0-> s1 -e1-> s0 whose entry action of s1 sends e1 to the FSM itself: the documented
+    chained transition; the request is parked in the window (handler entered at depth 1 with one
+    suspended frame), the FSM ends in s0, nothing is refused, the simulation goes on -/
+def exChain : Circ :=
+  ⟨[{ kind := .fsm, nStates := 2, trans := [("e0", some 0, some 1), ("e1", some 1, some 0)],
+      enterS := [[], [.rawEvent 0 (.name "e1")]] }]⟩
+
+def exFsmReady : St :=
+  { (default : St) with init := fun _ => .done, out := fun _ => .str "s0", fstate := fun _ => some 0 }
+
+example : (rawSend exChain exFsmReady 0 (.name "e0") []).2 = .ret (.bool true)
+    ∧ (rawSend exChain exFsmReady 0 (.name "e0") []).1.fstate 0 = some 0
+    ∧ (rawSend exChain exFsmReady 0 (.name "e0") []).1.error = Option.none
+    ∧ (rawSend exChain exFsmReady 0 (.name "e0") []).1.active 0 = false
+    ∧ (rawSend exChain exFsmReady 0 (.name "e0") []).1.trace.length = 4 := by decide +kernel
+
+/-- the same FSM with an on_enter event of s1 (not the entry action) leading back to it: refused,
+    the simulation is stopped -/
+def exFsmLoop : Circ :=
+  ⟨[{ kind := .fsm, nStates := 2, trans := [("e0", some 0, some 1), ("e1", Option.none, some 0)],
+      onEnter := [[], [⟨0, .name "e1", []⟩]] }]⟩
+
+example : (rawSend exFsmLoop exFsmReady 0 (.name "e0") []).2 = .exc .circuitError
+    ∧ (rawSend exFsmLoop exFsmReady 0 (.name "e0") []).1.error = some .circuitError
+    ∧ (rawSend exFsmLoop exFsmReady 0 (.name "e0") []).1.active 0 = false
+    ∧ (rawSend exFsmLoop exFsmReady 0 (.name "e0") []).1.fsmActive 0 = false := by decide +kernel
 
 /-- `Idle`, `Inv`, `TraceOk` are satisfiable: the start state -/
 example : Idle exReady ∧ Inv exReady ∧ TraceOk exReady :=
